@@ -262,6 +262,25 @@ pub fn check(case: &C03Case, st: &mut Stats) -> Verdict {
             if closed.len() != g.len() {
                 st.label("accepted_with_orphan_child");
             }
+            // cross-check of the two reference models: the from-scratch spec processing of
+            // (signed payload, list) must give the same view whenever it does not demand rejection
+            if let Ok(j) = crate::codec::decode_jwt(&issued.parts.jwt) {
+                match crate::spec::process(&j.payload, &list) {
+                    crate::spec::SpecOutcome::Claims(v) => {
+                        st.label("spec_model_agrees_checked");
+                        if v != expected {
+                            return Err(Failure::new("harness:model-disagreement", format!("view model and spec model disagree\n  view: {}\n  spec: {}\n{}", expected, v, describe())));
+                        }
+                    }
+                    crate::spec::SpecOutcome::MustReject(why) => {
+                        return Err(Failure::new(
+                            "disclosures:accepted-but-spec-rejects",
+                            format!("the verifier accepted a disclosure list that the specification's processing rejects ({})\n{}", why.join("; "), describe()),
+                        ));
+                    }
+                    crate::spec::SpecOutcome::Ambiguous(_) => {}
+                }
+            }
             if c != expected {
                 return Err(Failure::new(
                     "disclosures:wrong-claims",
